@@ -24,6 +24,7 @@ import (
 	"log"
 	"path"
 	"path/filepath"
+	"sort"
 	"strconv"
 	"strings"
 
@@ -433,7 +434,13 @@ func genTestFunc(pkg *gogen.Package, name, testType, param, paramType string) {
 func gmxCheckProjs(pkg *gogen.Package, ctx *pkgCtx) (*gmxProject, bool) {
 	var projMain, projNoMain *gmxProject
 	var multiMain, multiNoMain bool
-	for _, v := range ctx.projs {
+	exts := make([]string, 0, len(ctx.projs))
+	for ext := range ctx.projs {
+		exts = append(exts, ext)
+	}
+	sort.Strings(exts) // deterministic order (ctx.projs is a map)
+	for _, ext := range exts {
+		v := ctx.projs[ext]
 		if v.isTest {
 			continue
 		}
